@@ -358,6 +358,21 @@ def _scalar_memos(mod: PyModule, fn: ast.FunctionDef, inputs: tuple, memory_depe
         src = reads_persist(ret.value)
         if not src:
             continue
+        # refreshed in this very call: an assignment to the attribute from live state dominates the return
+        try:
+            from . import cfg as _cfg
+            g = _cfg.build_py(fn, fn.name)
+            rn = g.node_of(ret)
+            fresh = False
+            for a in live:
+                if isinstance(a, ast.Assign) and any(unparse(t) == src for t in a.targets) and not reads_persist(a.value):
+                    an = g.node_of(a)
+                    if an is not None and rn is not None and g.dominates(an, rn):
+                        fresh = True
+            if fresh:
+                continue
+        except Exception:  # noqa: BLE001 - no flow graph: keep the conservative answer
+            pass
         covered: set[str] = set()
         for t in tests:
             for cmp_ in [c for c in ast.walk(t) if isinstance(c, ast.Compare)]:
